@@ -182,8 +182,9 @@ def _reject():
     st = S(5)
     h = jnp.ones(3)
     bad = []
-    must_raise = [dict(method='overlap_add'), dict(method='nope'), dict(method='dense', fft_size=8), dict(method='direct', fft_size=8),
-                  dict(method='fft', fft_size=8), dict(method='overlap_save', fft_size=4), dict(method='overlap_save', fft_size=1)]
+    # only what the statement calls illegal: a method that does not exist, an FFT size below the number of bands (2K-1 = 5 here).
+    # (An FFT size handed to a method that does not use one, or the dormant 'overlap_add' method, are not pinned.)
+    must_raise = [dict(method='nope'), dict(method='overlap_save', fft_size=4), dict(method='overlap_save', fft_size=1)]
     for kw in must_raise:
         try:
             T(h, st, **kw)
@@ -198,8 +199,8 @@ def _reject():
         except Exception as ex:  # noqa: BLE001
             bad.append(f'legal {kw} rejected: {ex}')
     for K in range(1, 40):
-        fs = T._get_default_fft_size(2 * K - 1)
-        if fs < 2 * K - 1:
+        fs = T(jnp.ones(K), S(4), method='overlap_save').fft_size
+        if fs is None or fs < 2 * K - 1:
             bad.append(f'default fft size {fs} < {2 * K - 1}')
     if bad:
         return violation('constructor validation: ' + '; '.join(bad), signature='c09-reject:' + ';'.join(bad)[:120], kind='reject')
